@@ -288,3 +288,23 @@ PROPS["C19"] = dict(
     outside="G2, twisted Edwards, polynomial packages, vector operations with overlapping sub-slices, remaining towers",
     assumptions=[],
 )
+
+GLV_CURVES = ["bn254", "bls12-377", "bls12-381", "bls24-315", "bls24-317", "bw6-633", "bw6-761", "secp256k1"]
+
+PROPS["C03"] = dict(
+    jobs=[Job("ecc/" + c, ["C03/scalarmul.go.tmpl"], params=dict(Curve=c, ScalarBits=6, SplitBits=300, SplitSlack=3, GLV=1 if c in GLV_CURVES else 0))
+          for c in CURVES if c != "stark-curve"],
+    level_text="Bounded proof, for G1 of 9 curves, that mulWindowed, the GLV joint-window loop (mulGLV) and Straus-Shamir "
+               "JointScalarMultiplication compute exactly the linear combination prescribed by their scalars in the free-module "
+               "interpretation (point operations = vector operations over formal generators Q, phi(Q) resp. a1, a2), for all four sign "
+               "patterns, zero, and multi-word scalars; and that the lattice decomposition SplitScalar satisfies k0 + lambda*k1 = s (mod r) "
+               "with short k0, k1 for every |s| < 2^300, lambda^2 + lambda + 1 = 0 (mod r).",
+    level_note="Point formulas themselves are C02's subject; here AddAssign/Double/Neg/phi are summarised by their module action "
+               "(phi^2 + phi + 1 = 0). Bits(SetBigInt(v)) of the scalar field is summarised as 'limbs of v mod r' (C08). "
+               "The lattice basis is the one computed by the package's own init (executed concretely).",
+    bounds="window loops: scalars with |s| < 2^6 (quick) in every sign pattern plus scalars a + b*2^64 + c*2^128 with 2-bit a,b,c; "
+           "SplitScalar: |s| < 2^300",
+    outside="full-length symbolic scalars for the window loops (needs per-window invariants), G2, BatchScalarMultiplication, "
+            "twisted Edwards and bandersnatch scalar multiplication",
+    assumptions=["module summaries of point operations", "Bits(SetBigInt(v)) = limbs of v mod r"],
+)
